@@ -239,10 +239,12 @@ func (nak *NesterAccountKeeper) RemoveAccount(account EthAccount) {
 	prefixKey := append(nak.prefix, account.Address.Bytes()...)
 	nak.state.Delete(prefixKey)
 	// the balance lives in the balance store: a removed account (self-destructed, its funds
-	// already credited to the beneficiary) must not keep its old balance there
+	// already credited to the beneficiary) must not keep a balance there; what it received
+	// after destructing itself is destroyed with it
 	if account.Coins != (Coin{}) {
-		if err := nak.balances.SetBalance(account.Address, account.Coins); err != nil {
-			nak.logger.Error("failed to update the balance of removed account", account.Address, err)
+		none := Coin{Currency: account.Coins.Currency, Amount: NewAmountFromBigInt(big.NewInt(0))}
+		if err := nak.balances.SetBalance(account.Address, none); err != nil {
+			nak.logger.Error("failed to clear the balance of removed account", account.Address, err)
 		}
 	}
 }
